@@ -119,6 +119,15 @@ fn cases(dir: &str) -> Vec<Case> {
         add("validate:cfn-long:plain", sv(&["validate", "-r", &rl, "-d", &tl]), "", "lines");
         add("validate:cfn-long:verbose", sv(&["validate", "-r", &rl, "-d", &tl, "-S", "all", "-v"]), "", "lines");
     }
+    // error messages that list names: a reference to a rule / parameterised rule that does not exist, among several that do
+    {
+        let ur = w("unk/r.guard", "rule alpha { a exists }\nrule beta { a exists }\nrule gamma { a exists }\nrule epsilon { a exists }\nrule delta when nosuchrule { a exists }\n");
+        let ud = w("unk/d.json", "{\"a\": 1}");
+        let up = w("unk/p.guard", "rule p_one(x) { %x exists }\nrule p_two(x) { %x exists }\nrule p_three(x) { %x exists }\nrule p_four(x) { %x exists }\nrule caller { p_missing(a) }\n");
+        add("validate:unknown-rule:plain", sv(&["validate", "-r", &ur, "-d", &ud]), "", "lines+err");
+        add("validate:unknown-parameterised-rule:plain", sv(&["validate", "-r", &up, "-d", &ud]), "", "lines+err");
+        add("validate:unknown-rule:structured", sv(&["validate", "-r", &ur, "-d", &ud, "--structured", "-o", "json", "-S", "none"]), "", "lines+err");
+    }
     // a test file whose expectations are not status words (several different wrong words in one case: which one is reported?)
     let tbad = w("t/bad/r5_tests.yaml", "- name: one\n  input: {a: 1, b: 1, l: [{x: 1}]}\n  expectations:\n    rules:\n      ra: PASSED\n      rb: FAILED\n      rc: skipped\n      rd: Pass\n      re: ok\n      rf: PASS\n");
     for (fname, extra, cmp) in [("plain", vec![], "lines"), ("json", vec!["-o", "json"], "bytes"), ("yaml", vec!["-o", "yaml"], "bytes"), ("junit", vec!["-o", "junit"], "bytes")] {
@@ -211,7 +220,7 @@ fn normalise(out: &str, cmp: &str) -> Vec<String> {
     match cmp {
         "mixed" => mixed(out),
         "bytes" => vec![mask_times(out)],
-        "lines" => sorted_lines(&mask_times(out)),
+        "lines" | "lines+err" => sorted_lines(&mask_times(out)),
         _ => rulegen_norm(out),
     }
 }
@@ -297,7 +306,14 @@ pub fn run(tier: &str) -> i32 {
         let c = &cs[k];
         let replay = |what: String, a: &str, b: &str| json!({"kind":"proc","argv":c.argv,"stdin":c.stdin,"expected":"identical output and exit code","observed":what,"run_a":a.chars().take(1500).collect::<String>(),"run_b":b.chars().take(1500).collect::<String>()});
         // ---- fresh processes, hash seeds pinned by the shim
-        let run_seed = |seed: u64| cli_proc(&c.argv, &c.stdin, &[("LD_PRELOAD".into(), shim.clone()), ("VERIF_HASH_SEED".into(), seed.to_string())], None, 20_000);
+        // (for cases compared with their diagnostics, stderr is appended to what is compared)
+        let fold = |mut o: ProcOut| {
+            if c.cmp == "lines+err" {
+                o.out = format!("{}\n{}", o.out, o.err);
+            }
+            o
+        };
+        let run_seed = |seed: u64| fold(cli_proc(&c.argv, &c.stdin, &[("LD_PRELOAD".into(), shim.clone()), ("VERIF_HASH_SEED".into(), seed.to_string())], None, 20_000));
         let base = run_seed(1);
         let again = run_seed(1);
         acc.traces += 2;
@@ -328,7 +344,7 @@ pub fn run(tier: &str) -> i32 {
             let mut e = ev.clone();
             e.push(("LD_PRELOAD".into(), shim.clone()));
             e.push(("VERIF_HASH_SEED".into(), "1".into()));
-            let o = cli_proc(&c.argv, &c.stdin, &e, cwd.as_deref(), 20_000);
+            let o = fold(cli_proc(&c.argv, &c.stdin, &e, cwd.as_deref(), 20_000));
             acc.traces += 1;
             if o.status != base.status || normalise(&o.out, c.cmp) != nb {
                 acc.violate(&format!("environment:{}", c.name), format!("{}: differs under {}", c.name, en), replay(format!("differs under {}", en), &base.out, &o.out));
